@@ -4,7 +4,7 @@ import numpy as np
 from harness import circgen as cg, logicsim_corr as lc, oracle_net as on, simops_corr as sc, simcheck as sk
 
 THEOREMS = ['C01_lut_correct', 'C01_dispatch2_correct', 'C01_select_prim', 'C01_opcodes_injective', 'C01_lanes',
-            'C01_build_ops_solution', 'C01_solution_unique', 'C01_logic2_gate_by_gate']
+            'C01_build_ops_solution', 'C01_solution_unique', 'C01_logic2_gate_by_gate', 'C01_end_to_end_default', 'C01_build_total']
 
 
 def oracle_cycles(c, stim_bits, k):
